@@ -428,7 +428,7 @@ class File(resource.Resource, filepath.FilePath[str]):
         """
         size = self.getFileSize()
         if start is None:
-            start = size - end
+            start = max(0, size - end)
             end = size
         elif end is None:
             end = size
